@@ -87,6 +87,27 @@ type c38World struct {
 	seen   map[c38Key]bool
 	caps   []c38Captured
 	defClass, defMsg string
+	// moved[a][b]: when the connection between a and b last changed (dropped,
+	// dialled, reset). One forwarding round walks the connected and then the kept
+	// peers; a peer that moves between the lists while the round runs can be sent
+	// the message twice within that round, which the statement does not exclude.
+	moved map[[2]int]time.Duration
+}
+
+func (w *c38World) noteMoved(a, b int) {
+	w.mu.Lock()
+	if w.moved == nil {
+		w.moved = map[[2]int]time.Duration{}
+	}
+	w.moved[[2]int{a, b}] = w.r.Now()
+	w.moved[[2]int{b, a}] = w.r.Now()
+	w.mu.Unlock()
+}
+
+func (w *c38World) noteMovedAll(a int) {
+	for i := 0; i < 16; i++ {
+		w.noteMoved(a, i)
+	}
 }
 
 func c38GroupName(g int64) string { return fmt.Sprintf("grp%d", g) }
@@ -206,7 +227,12 @@ func (w *c38World) c38Note(kind byte, node, gen, peer int, via byte, origin boso
 	} else {
 		w.r.Count("probe_origin_sent")
 	}
-	if had && now-prev < c38SendWindow {
+	w.mu.Lock()
+	mv, wasMoved := w.moved[[2]int{node, peer}]
+	w.mu.Unlock()
+	if had && now-prev < c38SendWindow && wasMoved && now-mv < 2*time.Second {
+		w.r.Count("obs_dup_send_while_peer_changed_list")
+	} else if had && now-prev < c38SendWindow {
 		msg := fmt.Sprintf("n%d sent message (origin n%d, id %d, group %s) twice to n%d: at %v and %v; its groups now: %s", node, o, id, gid.String()[:6], peer, prev, now, w.listsOf(node))
 		holds := false
 		for _, g := range w.service(node).VerifGroups() {
@@ -480,6 +506,7 @@ func (w *c38World) exec(phase int, o gosim.Op) {
 		if b == nil || a == b {
 			return
 		}
+		w.noteMoved(a.idx, b.idx)
 		err := a.Dial(ctx, b)
 		r.Logf("%s n%d->n%d: %s", o.K, a.idx, b.idx, c28ErrStr(err))
 	case "drop":
@@ -488,6 +515,7 @@ func (w *c38World) exec(phase int, o gosim.Op) {
 			return
 		}
 		_, _, nd := a.services()
+		w.noteMoved(a.idx, b.idx)
 		err := nd.Disconnect(b.Addr, "op: drop")
 		r.Logf("drop n%d-n%d: %s", a.idx, b.idx, c28ErrStr(err))
 	case "join", "observe":
@@ -576,12 +604,14 @@ func (w *c38World) faults(done chan struct{}) {
 		switch f.K {
 		case "reset":
 			_, _, na := a.services()
+			w.noteMovedAll(a.idx)
 			k := w.c.Net.ResetStreamsOf(na)
 			if k > 0 {
 				r.Count("fault_reset")
 			}
 			r.Logf("fault reset n%d: %d streams", a.idx, k)
 		case "restart":
+			w.noteMovedAll(a.idx)
 			prev := a.Neighbours()
 			if err := a.Restart(); err != nil {
 				r.Violate("setup", "restart n%d: %v", a.idx, err)
